@@ -133,7 +133,8 @@ def tlc(ctx, module, cfg=None, env=None, workers=NCPU, timeout=900, heap="4g", s
     """run TLC on spec/<module>.tla; returns dict(rc, out, generated, distinct, depth, ok, error)"""
     meta = tempfile.mkdtemp(prefix="tlc-", dir=ctx.scratch)
     gc = ["-XX:+UseSerialGC", "-Xms256m"] if workers == 1 else ["-XX:+UseParallelGC", "-XX:ParallelGCThreads=%d" % max(2, min(8, workers))]
-    cmd = ["timeout", str(timeout), "java"] + gc + ["-Xmx" + heap, "-Xss64m",
+    lib = (env or {}).get("VERIF_TLA_LIB") or os.path.join(SPEC, "gen")
+    cmd = ["timeout", str(timeout), "java"] + gc + ["-DTLA-Library=" + lib, "-Xmx" + heap, "-Xss64m",
            "-cp", JAR, "tlc2.TLC", "-workers", str(workers), "-metadir", meta, "-noGenerateSpecTE"]
     if cfg:
         cmd += ["-config", cfg]
